@@ -152,7 +152,7 @@ def gen_cases(ctx):
     for cls in ('BatchRequest', 'BatchResponse'):
         for strict in (True, False):
             for first in range(len(HIST_OPS)):
-                yield dict(part='history', cls=cls, strict=strict, first=first, budget=ctx.pick(4, 5))
+                yield dict(part='history', cls=cls, strict=strict, first=first, budget=ctx.pick(5, 6))
 
 
 def run_request(case, rec):
@@ -397,7 +397,7 @@ def run(ctx):
                 'input; batches of <= 3 elements over 11/12 element shapes; batch-level error objects; histories = every '
                 'append/extend sequence with <= %d ids attempted in total over ids %r, strict on/off, both batch classes, '
                 'explored WITHOUT merging states (each history replayed on a fresh object in lock-step with a list+set '
-                'model). non-trivial = message accepted and compared field-wise' % (len(MEMBER), len(ERRORS), ctx.pick(4, 5), HID))
+                'model). non-trivial = message accepted and compared field-wise' % (len(MEMBER), len(ERRORS), ctx.pick(5, 6), HID))
     ctx.assumptions += ['L2: fractional ids / integral-float codes may be accepted or refused; a missing response id and an '
                         'empty response array are not listed as invalid by the statement (either outcome accepted)']
     ctx.run_cases('C06', lambda: gen_cases(ctx), run_case, recheck_every=4001)
